@@ -3,7 +3,7 @@ import glob, json, os
 from vlib import *
 
 RULE = ("ops: seeded random operator sequences (1..24 operators over every Op variant the contexts emit: path, painting, clipping, "
-        "graphics state, dash, colour rg/g/k/RG/G/K and sc/SC, cs/CS/gs/ri/Do/sh with regular names incl. NUL, DEL, non-ASCII, "
+        "graphics state, dash, colour rg/g/k/RG/G/K and sc/SC, cs/CS/gs/ri/Do/sh with names over the whole alphabet: white space, delimiters, '#', '#20', NUL, DEL, non-ASCII (escaped #XX since fix_name_escape), "
         "Tf with Display-printed sizes, Td/Tw/Tc/Tz/TL/Ts/Tr, Tj with arbitrary bytes through escape_show_text_literal_bytes, hex Tj, "
         "TJ arrays, comments, BDC/EMC through a real Page incl. /ActualText) through the cfg hook into serialize_ops, then "
         "ContentParser::parse; numbers include NaN, +-inf, -0, ties at 0.005/0.015, denormals, 2^31, 2^53+1, values at and beyond "
